@@ -8,6 +8,10 @@ Model: Model/Linkage.lean (parse.c `function`/`global_variable`/`primary`/`mark_
 codegen.c `emit_data`/`emit_text`), Gen/AddrFormsGen.lean (gen_addr's ND_VAR arm, regenerated from codegen.c).
 Spec: Spec/LinkageSpec.lean.
 
+The model is parametrised by `Rules` (which of the four repairs of the known findings the code has; `Rules.asBuilt` is
+regenerated from parse.c / codegen.c on every run by tools/extract/linkrules.py).  Every theorem below that mentions the
+model is proved FOR EVERY RULE SET (`[Rules]` is a variable), in particular for `Rules.asBuilt`, the code as it is.
+
 An `Obj` list is the C list `globals` (newest first).  `Reach gs r f`: `f` is reached from `r` through the
 references `primary` recorded in `fn->refs`, resolved by `find_func` exactly as `mark_live` resolves them.
 All theorems are for every declaration sequence / every `Obj` list, i.e. every reference graph, cyclic or not.
@@ -24,11 +28,66 @@ import ChibiVerif.Lemmas.LinkageScanTy
 import ChibiVerif.Lemmas.LinkageOk
 import ChibiVerif.Lemmas.LinkageSym
 import ChibiVerif.Lemmas.LinkageNodup
+import ChibiVerif.Lemmas.LinkagePre
 
 namespace ChibiVerif.Props.C15
 open ChibiVerif.Linkage
 open ChibiVerif.Spec.Linkage
 open ChibiVerif.Gen.AddrForms
+
+/-! ### address forms -/
+
+/-- **C15_addr_table (full statement).**  For every context `gen_addr` can be in, the chosen address form is
+    valid for that kind of entity in that code model.  It fails in one cell (C15-extern-tls-local-exec,
+    Findings/C15.lean), so the proved theorem is `C15_addr_table_partial`. -/
+def C15_addr_table_Statement : Prop :=
+  ∀ c : VarCtx, ctxConsistent c = true → ∃ f, addrForm c = some f ∧ validForm (refCtxOf c) f = true
+
+/-- **C15_addr_table (partial).**  Whole table, by evaluation: every consistent context outside the region
+    `externTlsRegion` (non-PIC reference to a thread-local object the unit does not define).
+    What is missing for the full statement: that one cell; see `Findings.C15.C15_finding_extern_tls`. -/
+theorem C15_addr_table_partial :
+    ∀ c : VarCtx, ctxConsistent c = true → externTlsRegion c = false →
+      ∃ f, addrForm c = some f ∧ validForm (refCtxOf c) f = true := by
+  intro ⟨a, b, c, d, e, f⟩
+  cases a <;> cases b <;> cases c <;> cases d <;> cases e <;> cases f <;> decide
+
+/-- non-vacuity: a context inside the theorem's scope (PIC reference to an undefined thread-local object:
+    general dynamic) -/
+example : ctxConsistent ⟨false, false, true, true, false, false⟩ = true ∧
+    externTlsRegion ⟨false, false, true, true, false, false⟩ = false ∧
+    addrForm ⟨false, false, true, true, false, false⟩ = some .tlsGD := by decide
+
+/-- **C15_addr_table for the repaired ladder (full statement, no region).**  With the candidate repair of
+    C15-extern-tls-local-exec (`genAddrVarFixed`: in non-PIC code local exec only for a thread-local object the unit
+    defines, initial exec `mov x@gottpoff(%rip), %rax; add %fs:0, %rax` otherwise) every consistent context gets an address
+    form that is valid for its entity and code model: `C15_addr_table_Statement` with `addrFormFixed` for `addrForm`.
+    `externTlsRegion` is defined through the regenerated ladder (the cell must actually choose local exec), so once the repair
+    is in /repo the region of `C15_addr_table_partial` is empty without any edit here (`C15_addr_table_region_fixed`). -/
+theorem C15_addr_table_fixed :
+    ∀ c : VarCtx, ctxConsistent c = true → ∃ f, addrFormFixed c = some f ∧ validForm (refCtxOf c) f = true := by
+  intro ⟨a, b, c, d, e, f⟩
+  cases a <;> cases b <;> cases c <;> cases d <;> cases e <;> cases f <;> decide
+
+/-- the region of the known finding is read off the ladder: whenever the regenerated ladder agrees with the repaired
+    one, no context lies in `externTlsRegion` -/
+theorem C15_addr_table_region_fixed (h : ∀ c : VarCtx, addrForm c = addrFormFixed c) :
+    ∀ c : VarCtx, externTlsRegion c = false := by
+  intro ⟨a, b, c, d, e, f⟩
+  simp only [externTlsRegion, h]
+  cases a <;> cases b <;> cases c <;> cases d <;> cases e <;> cases f <;> decide
+
+/-- non-vacuity: the repaired ladder differs from the present one exactly in the cell of the finding (non-PIC,
+    thread-local, not defined by the unit), where it chooses initial exec -/
+example : addrFormFixed ⟨false, false, false, true, false, false⟩ = some .tlsIE ∧
+    addrFormFixed ⟨false, false, false, true, false, true⟩ = some .tlsLE ∧
+    validForm (refCtxOf ⟨false, false, false, true, false, false⟩) .tlsIE = true := by decide
+
+variable [Rules]
+
+/-- evaluate a closed statement for each of the sixteen rule sets -/
+local macro "all_rules" : tactic =>
+  `(tactic| (intro r; obtain ⟨a, b, c, d⟩ := r; cases a <;> cases b <;> cases c <;> cases d <;> decide))
 
 /-! ### liveness -/
 
@@ -62,50 +121,18 @@ theorem C15_live_unit (ds : List Decl) (st : PState) (h : declAll {} ds = .ok st
     * `find_func(f)` succeeds iff `ds` declares `f` at file scope;
     * `fn->refs` is the list of function names mentioned in the body (bodies) of `f`, in source order,
       including those in initializers of its static locals (`allBodyRefs`);
-    * `f` is a root iff its FIRST declaration does not make it `static inline` (chibicc: `static`, or `inline`
-      without `extern`, together with `inline`), or a file-scope initializer names it after its declaration
-      (`fileRooted`).  A later redeclaration never clears the mark (the repaired defect);
-    * `is_static` / `is_inline` are those of the first declaration (`s || (i && !e)`, `i`). -/
+    * `is_static` / `is_inline` are `fnFlags ds f`: those of the first declaration (`s || (i && !e)`, `i`) for the code that
+      never looks at a redeclaration, the result of the flag automaton over all declarations of `f` for the repaired
+      `function()` (`Rules.flagsFollow`; Lemmas/LinkageFlags.lean: it computes the class C11 gives the function);
+    * the root loop starts at `f` iff these flags do not make it `static inline`, or a file-scope initializer names it
+      after its declaration (`fileRooted`).  A later redeclaration never clears the mark (the repaired defect). -/
 theorem C15_recorded (ds : List Decl) (st : PState) (h : declAll {} ds = .ok st) (f : Name) :
     isFn st.globals f = (firstFlags ds f).isSome ∧
     refsOf st.globals f = allBodyRefs ds f ∧
     (f ∈ rootNames st.globals ↔
-      ∃ stc inl, firstFlags ds f = some (stc, inl) ∧ (!(stc && inl) || fileRooted ds false f) = true) ∧
-    (∀ o, findFunc st.globals f = some o → firstFlags ds f = some (o.isStatic, o.isInline)) := by
-  have hT := T_parse h f
-  have hn := (wf_declAll h).nodup
-  have hflags : ∀ o, findFunc st.globals f = some o → T st.globals f = some (fview o) := by
-    intro o ho; simp [T, ho]
-  rw [isFn_eq_T, refsOf_eq_T, mem_rootNames_iff_T hn]
-  rw [hT] at hflags ⊢
-  obtain ⟨hnone, hsome⟩ := evolve_none ds f
-  cases hff : firstFlags ds f with
-  | none =>
-    rw [hnone hff] at hflags ⊢
-    refine ⟨rfl, ?_, ?_, ?_⟩
-    · rw [allBodyRefs_undeclared ds f hff]; rfl
-    · constructor
-      · rintro ⟨v, hv, _⟩; cases hv
-      · rintro ⟨_, _, hx, _⟩; cases hx
-    · intro o ho; cases hflags o ho
-  | some p =>
-    obtain ⟨stc, inl⟩ := p
-    obtain ⟨v', hv', hs, hi, hr, hroot⟩ := hsome stc inl hff
-    rw [hv'] at hflags ⊢
-    refine ⟨rfl, ?_, ?_, ?_⟩
-    · simp [hr]
-    · constructor
-      · rintro ⟨v, hv, hvr⟩
-        cases hv
-        exact ⟨stc, inl, rfl, by rw [← hroot]; exact hvr⟩
-      · rintro ⟨a, b, hab, hcond⟩
-        cases hab
-        exact ⟨v', rfl, by rw [hroot]; exact hcond⟩
-    · intro o ho
-      have := hflags o ho
-      simp only [Option.some.injEq] at this
-      rw [← hs, ← hi, this]
-      rfl
+      ∃ stc inl, fnFlags ds f = some (stc, inl) ∧ (!(stc && inl) || fileRooted ds false f) = true) ∧
+    (∀ o, findFunc st.globals f = some o → fnFlags ds f = some (o.isStatic, o.isInline)) :=
+  recorded h f
 
 /-- reachability in terms of the declarations -/
 inductive ReachD (ds : List Decl) : Name → Name → Prop where
@@ -118,7 +145,7 @@ inductive ReachD (ds : List Decl) : Name → Name → Prop where
 theorem C15_live_decl (ds : List Decl) (st : PState) (h : declAll {} ds = .ok st) :
     ∃ gs, parseUnit ds = .ok gs ∧
       ∀ f, liveFn gs f = true ↔
-        ∃ r stc inl, firstFlags ds r = some (stc, inl) ∧ (!(stc && inl) || fileRooted ds false r) = true ∧
+        ∃ r stc inl, fnFlags ds r = some (stc, inl) ∧ (!(stc && inl) || fileRooted ds false r) = true ∧
           ReachD ds r f := by
   obtain ⟨gs, hp, hl⟩ := C15_live_unit ds st h
   have conv : ∀ a b, Reach st.globals a b ↔ ReachD ds a b := by
@@ -155,25 +182,26 @@ def cyclicUnit : List Decl :=
     .func 2 4 true false true (some [.ref (.fn 2), .ref (.fn 0)]),
     .obj 3 false false false ⟨8, 8, false, false⟩ (some [.ref (.fn 0)]) ]
 
-example : holdsOn (parseUnit cyclicUnit) (fun gs => liveFn gs 0 && liveFn gs 1 && !liveFn gs 2) = true := by
-  decide
+example : ∀ r : Rules, holdsOn (@parseUnit r cyclicUnit) (fun gs => liveFn gs 0 && liveFn gs 1 && !liveFn gs 2) = true := by
+  all_rules
 
 /-- the hypothesis of C15_live_unit / C15_recorded / C15_live_decl is met by `cyclicUnit`, and the recorded
     graph is the cyclic one -/
-example : holdsOn (declAll {} cyclicUnit) (fun st =>
+example : ∀ r : Rules, holdsOn (@declAll r {} cyclicUnit) (fun st =>
     refsOf st.globals 0 == [1] && refsOf st.globals 1 == [0] && refsOf st.globals 2 == [2, 0] &&
-    rootNames st.globals == [0]) = true := by
-  decide
+    @rootNames r st.globals == [0]) = true := by
+  all_rules
 
-example : holdsOn (parseUnit cyclicUnit) (fun gs =>
+example : ∀ r : Rules, holdsOn (@parseUnit r cyclicUnit) (fun gs =>
     (objectSymbols true gs).map (fun e => (e.sym, e.binding, e.kind)) ==
       [(.named 3, .global, .data), (.named 1, .local, .text), (.named 0, .local, .text)]) = true := by
-  decide
+  all_rules
 
 /-! ### closure of what is emitted -/
 
 /-- **C15_closed.**  In the list `parse` returns, for every declaration sequence:
-    1. every function with `is_root` (not `static inline`, or named in a file-scope initializer) is live;
+    1. every function at which the root loop starts (`effRoot`: not `static inline`, or named in a file-scope
+       initializer) is live;
     2. everything a live function refers to (a name recorded in its body that `find_func` resolves) is live —
        so every static function referenced by emitted code is emitted when it is defined;
     3. a live function is reachable from a root, i.e. a `static inline` definition that nothing emitted
@@ -181,7 +209,7 @@ example : holdsOn (parseUnit cyclicUnit) (fun gs =>
     4. `emit_text` prints a function iff it is a live definition. -/
 theorem C15_closed (ds : List Decl) (gs : List Obj) (h : parseUnit ds = .ok gs) :
     ∃ st, declAll {} ds = .ok st ∧
-    (∀ o f, o ∈ gs → o.isFunction = true → o.sym = .named f → o.isRoot = true → o.isLive = true) ∧
+    (∀ o f, o ∈ gs → o.isFunction = true → o.sym = .named f → effRoot o = true → o.isLive = true) ∧
     (∀ o f o2 g, o ∈ gs → o.isFunction = true → o.sym = .named f → o.isLive = true → g ∈ o.refs →
         o2 ∈ gs → o2.isFunction = true → o2.sym = .named g → o2.isLive = true) ∧
     (∀ o f, o ∈ gs → o.isFunction = true → o.sym = .named f → o.isLive = true →
@@ -234,18 +262,19 @@ theorem C15_closed (ds : List Decl) (gs : List Obj) (h : parseUnit ds = .ok gs) 
 
 /-- non-vacuity of C15_closed: in `cyclicUnit` the unreferenced `static inline dead` is not printed, the
     cycle `a`/`b` reached from the file-scope initializer is -/
-example : holdsOn (parseUnit cyclicUnit) (fun gs => (emitText gs).map (·.sym) == [.named 1, .named 0]) = true := by
-  decide
+example : ∀ r : Rules, holdsOn (@parseUnit r cyclicUnit) (fun gs => (emitText gs).map (·.sym) == [.named 1, .named 0]) = true := by
+  all_rules
 
 /-! ### tentative definitions -/
 
 /-- **C15_tentative.**  For every `Obj` list and every object name `s` with at most one non-tentative
-    definition (`NameOK`), after `scan_globals`:
+    definition (`NameOK`) whose objects have no owner (file-scope objects; `noOwner`), after `scan_globals`:
     * `emit_data` prints at most one definition of `s`, and exactly one if the list holds any definition of `s`;
     * the printed entry comes from a declaration `a` of `s` in the list (possibly with the type of another
       declaration: the composite type); it is the tentative one exactly when no non-tentative definition exists;
     * it is `.comm` iff `-fcommon`, all definitions were tentative, and the object is not thread-local. -/
-theorem C15_tentative (fcommon : Bool) (gs : List Obj) (s : Sym) (ok : NameOK gs s) :
+theorem C15_tentative (fcommon : Bool) (gs : List Obj) (s : Sym) (ok : NameOK gs s)
+    (noOwner : ∀ o, o ∈ gs → o.sym = s → o.owner = none) :
     ((emitData fcommon (scanGlobals gs)).filter (fun e => e.sym == s)).length ≤ 1 ∧
     (gs.any (dataDefOf s) = true →
       ((emitData fcommon (scanGlobals gs)).filter (fun e => e.sym == s)).length = 1) ∧
@@ -254,21 +283,35 @@ theorem C15_tentative (fcommon : Bool) (gs : List Obj) (s : Sym) (ok : NameOK gs
         (a.isTentative = true ↔ gs.any (realDefOf s) = false) ∧
         (e.kind = .common ↔ (fcommon = true ∧ gs.any (realDefOf s) = false ∧ a.isTls = false))) := by
   have hrel := scanGlobals_tyRel gs
+  have ok2 := nameOK_preScan ok
+  have hreal2 : (preScan gs).any (realDefOf s) = gs.any (realDefOf s) := (preScan_tyRel gs).any (tyBlind_realDefOf s)
+  -- an object of the result, traced back to the list
+  have back : ∀ b, b ∈ scanGlobals gs → ∃ a t, a ∈ gs ∧ b = { a with ty := t } ∧ preOne gs a ∈ scanPure (preScan gs) (preScan gs) := by
+    intro b hb
+    obtain ⟨a2, ha2, t, rfl⟩ := hrel.mem hb
+    obtain ⟨a, ha, rfl⟩ := mem_preScan.mp (scanPure_sub _ _ a2 ha2)
+    obtain ⟨t2, ht2⟩ := preOne_same gs a
+    exact ⟨a, t, ha, by rw [ht2], ha2⟩
+  have hown : ∀ o, o ∈ scanGlobals gs → o.sym = s → o.owner = none := by
+    intro o ho hs
+    obtain ⟨a, t, ha, rfl, _⟩ := back o ho
+    exact noOwner a ha hs
   have hcount : ((emitData fcommon (scanGlobals gs)).filter (fun e => e.sym == s)).length =
-      ((scanPure gs gs).filter (dataDefOf s)).length := by
-    rw [emitData_count, hrel.filter_length (tyBlind_dataDefOf s)]
+      ((scanPure (preScan gs) (preScan gs)).filter (dataDefOf s)).length := by
+    rw [emitData_count fcommon s _ hown, hrel.filter_length (tyBlind_dataDefOf s)]
   refine ⟨?_, ?_, ?_⟩
-  · rw [hcount]; exact scanPure_count_le_one ok
+  · rw [hcount]; exact scanPure_count_le_one ok2
   · intro hex
     rw [hcount]
-    have h1 := scanPure_count_le_one ok
-    have h2 := scanPure_count_pos ok hex
+    have h1 := scanPure_count_le_one ok2
+    have h2 := scanPure_count_pos ok2 (by rw [(preScan_tyRel gs).any (tyBlind_dataDefOf s)]; exact hex)
     omega
   · intro e he hs
     unfold emitData at he
     rw [List.mem_filterMap] at he
     obtain ⟨b, hb, hbe⟩ := he
-    obtain ⟨a, ha, t, rfl⟩ := hrel.mem hb
+    obtain ⟨a, t, hag, rfl, hkept⟩ := back b (List.mem_filter.mp hb).1
+    obtain ⟨t2, ht2⟩ := preOne_same gs a
     have hsym : a.sym = s := by
       have := emitDataVar_sym hbe
       rw [hs] at this; exact this.symm
@@ -277,8 +320,13 @@ theorem C15_tentative (fcommon : Bool) (gs : List Obj) (s : Sym) (ok : NameOK gs
       rw [hbe] at this
       exact this.symm
     simp only [Bool.and_eq_true, Bool.not_eq_true'] at hsome
-    have hag := scanPure_sub gs gs a ha
-    have htent := scanPure_kept_tent ha hsym hsome.2
+    have htent : a.isTentative = true ↔ gs.any (realDefOf s) = false := by
+      have hs2 : (preOne gs a).sym = s := by rw [ht2]; exact hsym
+      have hd2 : (preOne gs a).isDefinition = true := by rw [ht2]; exact hsome.2
+      have ht2' : (preOne gs a).isTentative = a.isTentative := by rw [ht2]
+      have := scanPure_kept_tent hkept hs2 hd2
+      rw [ht2', hreal2] at this
+      exact this
     refine ⟨a, t, hag, by simp [dataDefOf, hsome.1, hsome.2, hsym], hbe, htent, ?_⟩
     -- the kind of the entry, read off emit_data
     unfold emitDataVar at hbe
@@ -296,129 +344,104 @@ def tentativeUnit : List Decl :=
     .obj 2 false false false ⟨4, 4, false, false⟩ (some []), .obj 2 false false false ⟨4, 4, false, false⟩ none,
     .obj 3 false false true ⟨4, 4, false, false⟩ none, .obj 3 false false true ⟨4, 4, false, false⟩ none ]
 
-example : holdsOn (parseUnit tentativeUnit) (fun gs =>
+example : ∀ r : Rules, holdsOn (@parseUnit r tentativeUnit) (fun gs =>
     (emit true gs).map (fun e => (e.sym, e.binding, e.kind)) ==
       [(.named 3, .global, .tbss), (.named 2, .global, .data), (.named 1, .local, .common), (.named 0, .global, .common)] &&
     (emit false gs).map (fun e => (e.sym, e.kind)) ==
       [(.named 3, .tbss), (.named 2, .data), (.named 1, .bss), (.named 0, .bss)]) = true := by
-  decide
+  all_rules
 
-/-- the hypothesis `NameOK` holds for each of the four names in the list `parse` builds for `tentativeUnit` -/
-example : holdsOn (declAll {} tentativeUnit) (fun st =>
+/-- the hypotheses `NameOK` / `noOwner` hold for each of the four names in the list `parse` builds for `tentativeUnit` -/
+example : ∀ r : Rules, holdsOn (@declAll r {} tentativeUnit) (fun st =>
     [0, 1, 2, 3].all (fun n =>
-      st.globals.all (fun o => !(o.sym == .named n) || !o.isFunction) &&
+      st.globals.all (fun o => !(o.sym == .named n) || (!o.isFunction && o.owner == none)) &&
       decide ((st.globals.filter (realDefOf (.named n))).length ≤ 1) &&
       st.globals.all (fun o => !o.isTentative || o.isDefinition))) = true := by
-  decide
+  all_rules
 
 /-- **C15_tentative_type.**  The type of the definition that stays.  For every `Obj` list and every name `s`
-    without a non-tentative definition: if the types of the tentative definitions of `s` (newest first) satisfy
+    without a non-tentative definition: if the types of the tentative definitions of `s` (newest first; for the repaired
+    code after the pass that completes arrays from the other declarations: `preScan`) satisfy
     `ChainOK P` - all have the composite type's alignment and array-ness `P`, and either none gives an array
     length and all element sizes are `P.size`, or behind some declaration that gives the length `P.size` only
     declarations follow that give that length or none (for a valid unit: always, Lemmas/LinkageObjSym.lean
     `chain_of_valid`) - then every tentative definition of `s` that `scan_globals` keeps has a known length and
     the size, alignment and array-ness of the composite type (C11 6.2.7p3, 6.9.2p2/p5). -/
 theorem C15_tentative_type (P : TyParams) (gs : List Obj) (s : Sym) (hreal : gs.any (realDefOf s) = false)
-    (hc : ChainOK P (tysOf s gs)) :
+    (hc : ChainOK P (tysOf s (preScan gs))) :
     ∀ o, o ∈ scanGlobals gs → isTentOf s o = true →
       o.ty.unknownLen = false ∧ o.ty.size = P.size ∧ o.ty.align = P.align ∧ o.ty.isArray = P.isArray := by
   intro o ho hs
-  obtain ⟨⟨ha, hr, _⟩, hk, hsz⟩ := scanGlobals_good hreal hc o ho hs
+  have hreal2 : (preScan gs).any (realDefOf s) = false := by
+    rw [(preScan_tyRel gs).any (tyBlind_realDefOf s)]; exact hreal
+  obtain ⟨⟨ha, hr, _⟩, hk, hsz⟩ := scanCore_good hreal2 hc o ho hs
   exact ⟨hk, hsz, ha, hr⟩
 
 /-- non-vacuity: `int a[]; int a[5]; int a[];` (a=0, newest first in the list): the hypotheses hold with the
     composite type `int[5]`, and the definition that stays has 20 bytes -/
-example :
-    let gs : List Obj := [ { sym := .named 0, isTentative := true, isStatic := false, ty := ⟨4, 4, true, true⟩ },
-                           { sym := .named 0, isTentative := true, isStatic := false, ty := ⟨20, 4, true, false⟩ },
-                           { sym := .named 0, isTentative := true, isStatic := false, ty := ⟨4, 4, true, true⟩ } ]
-    gs.any (realDefOf (.named 0)) = false ∧ ChainOK ⟨20, 4, true⟩ (tysOf (.named 0) gs) ∧
-    (scanGlobals gs).map (fun o => (o.ty.size, o.ty.unknownLen)) = [(20, false)] := by
-  refine ⟨by decide, chain_initial (by decide) (Or.inl ⟨⟨20, 4, true, false⟩, by decide, rfl⟩), by decide⟩
+def tentTypeList : List Obj :=
+  [ { sym := .named 0, isTentative := true, isStatic := false, ty := ⟨4, 4, true, true⟩ },
+    { sym := .named 0, isTentative := true, isStatic := false, ty := ⟨20, 4, true, false⟩ },
+    { sym := .named 0, isTentative := true, isStatic := false, ty := ⟨4, 4, true, true⟩ } ]
 
-/-! ### address forms -/
+example : ∀ r : Rules, tentTypeList.any (realDefOf (.named 0)) = false ∧
+    (@scanGlobals r tentTypeList).map (fun o => (o.ty.size, o.ty.unknownLen)) = [(20, false)] := by
+  all_rules
 
-/-- **C15_addr_table (full statement).**  For every context `gen_addr` can be in, the chosen address form is
-    valid for that kind of entity in that code model.  It fails in one cell (C15-extern-tls-local-exec,
-    Findings/C15.lean), so the proved theorem is `C15_addr_table_partial`. -/
-def C15_addr_table_Statement : Prop :=
-  ∀ c : VarCtx, ctxConsistent c = true → ∃ f, addrForm c = some f ∧ validForm (refCtxOf c) f = true
+example : ChainOK ⟨20, 4, true⟩ (tysOf (.named 0) (@preScan Rules.original tentTypeList)) :=
+  chain_initial (by decide) (Or.inl ⟨⟨20, 4, true, false⟩, by decide, rfl⟩)
 
-/-- **C15_addr_table (partial).**  Whole table, by evaluation: every consistent context outside the region
-    `externTlsRegion` (non-PIC reference to a thread-local object the unit does not define).
-    What is missing for the full statement: that one cell; see `Findings.C15.C15_finding_extern_tls`. -/
-theorem C15_addr_table_partial :
-    ∀ c : VarCtx, ctxConsistent c = true → externTlsRegion c = false →
-      ∃ f, addrForm c = some f ∧ validForm (refCtxOf c) f = true := by
-  intro ⟨a, b, c, d, e, f⟩
-  cases a <;> cases b <;> cases c <;> cases d <;> cases e <;> cases f <;> decide
-
-/-- non-vacuity: a context inside the theorem's scope (PIC reference to an undefined thread-local object:
-    general dynamic) -/
-example : ctxConsistent ⟨false, false, true, true, false, false⟩ = true ∧
-    externTlsRegion ⟨false, false, true, true, false, false⟩ = false ∧
-    addrForm ⟨false, false, true, true, false, false⟩ = some .tlsGD := by decide
-
-/-- **C15_addr_table for the repaired ladder (full statement, no region).**  With the candidate repair of
-    C15-extern-tls-local-exec (`genAddrVarFixed`: in non-PIC code local exec only for a thread-local object the unit
-    defines, initial exec `mov x@gottpoff(%rip), %rax; add %fs:0, %rax` otherwise) every consistent context gets an address
-    form that is valid for its entity and code model: `C15_addr_table_Statement` with `addrFormFixed` for `addrForm`.
-    `externTlsRegion` is defined through the regenerated ladder (the cell must actually choose local exec), so once the repair
-    is in /repo the region of `C15_addr_table_partial` is empty without any edit here (`C15_addr_table_region_fixed`). -/
-theorem C15_addr_table_fixed :
-    ∀ c : VarCtx, ctxConsistent c = true → ∃ f, addrFormFixed c = some f ∧ validForm (refCtxOf c) f = true := by
-  intro ⟨a, b, c, d, e, f⟩
-  cases a <;> cases b <;> cases c <;> cases d <;> cases e <;> cases f <;> decide
-
-/-- the region of the known finding is read off the ladder: whenever the regenerated ladder agrees with the repaired
-    one, no context lies in `externTlsRegion` -/
-theorem C15_addr_table_region_fixed (h : ∀ c : VarCtx, addrForm c = addrFormFixed c) :
-    ∀ c : VarCtx, externTlsRegion c = false := by
-  intro ⟨a, b, c, d, e, f⟩
-  simp only [externTlsRegion, h]
-  cases a <;> cases b <;> cases c <;> cases d <;> cases e <;> cases f <;> decide
-
-/-- non-vacuity: the repaired ladder differs from the present one exactly in the cell of the finding (non-PIC,
-    thread-local, not defined by the unit), where it chooses initial exec -/
-example : addrFormFixed ⟨false, false, false, true, false, false⟩ = some .tlsIE ∧
-    addrFormFixed ⟨false, false, false, true, false, true⟩ = some .tlsLE ∧
-    validForm (refCtxOf ⟨false, false, false, true, false, false⟩) .tlsIE = true := by decide
+example : ChainOK ⟨20, 4, true⟩ (tysOf (.named 0) (@preScan Rules.repaired tentTypeList)) :=
+  chain_initial (by decide) (Or.inl ⟨⟨20, 4, true, false⟩, by decide, rfl⟩)
 
 /-! ### the symbol table -/
 
 /-- **C15_symbols (full statement).**  For every valid declaration sequence and both `-fcommon` settings the
     ELF symbol table of the model's output has exactly the entries of `Spec.symbols`.
-    It is false in the known-finding regions (Findings/C15.lean has kernel-checked witnesses for each) and -
-    for a reason that has nothing to do with chibicc - on units that `valid` admits although no C compiler would
-    (use of a block-scope `extern` before its declaration, incompatible element types, alignment 0:
-    Findings/C15.lean `C15_side_*`).  Outside both it is proved: `C15_symbols_partial`. -/
+    `Spec.valid` states what makes a declaration sequence a C translation unit as far as linkage goes (C11 6.2.2p7,
+    6.7.1p3, 6.2.7p1/p2, 6.2.1p7, 6.9p3, 6.9p5; validated against gcc 12: no unit gcc accepts may be invalid).
+    The statement is false for the code with any of the four known findings (Findings/C15.lean has kernel-checked
+    witnesses for each rule that is off) and PROVED for the code with the four repairs: `C15_symbols_repaired`. -/
 def C15_symbols_Statement : Prop :=
   ∀ (fcommon : Bool) (ds : List Decl), valid ds = true →
     ∃ gs, parseUnit ds = .ok gs ∧
       (∀ e, e ∈ objectSymbols fcommon gs ↔ e ∈ symbols fcommon ds)
 
-/-- the decidable region in which `C15_symbols_Statement` is claimed: a valid unit outside the four
-    known-finding regions of the symbol table.  Two of them are narrower than the regions the findings were
-    first recorded with: `flagsFrozenDefRegion` is `flagsFrozenRegion` restricted to functions the unit defines
-    (the class of a function that is only declared never reaches the table); `deadStaticLocalVisibleRegion` is
-    `deadStaticLocalRegion` restricted to initializers that name something which nothing emitted refers to and
-    the unit does not define - exactly the units on which the always-emitted datum changes the table. -/
-def InScope (ds : List Decl) : Bool :=
-  valid ds && !flagsFrozenDefRegion ds && !deadStaticLocalVisibleRegion ds && !compositeSizeRegion ds &&
-  !externInitAfterStaticRegion ds
+/-- the decidable region in which `C15_symbols_Statement` is claimed: a valid unit outside the regions of the known
+    findings THE CODE STILL HAS (`Spec.symbolsScope`: each region is guarded by the rule that repairs it).  Two regions are
+    narrower than the regions the findings were first recorded with: `flagsFrozenDefRegion` is `flagsFrozenRegion` restricted
+    to functions the unit defines; `deadStaticLocalVisibleRegion` is `deadStaticLocalRegion` restricted to initializers that
+    name something which nothing emitted refers to and the unit does not define. -/
+def InScope (ds : List Decl) : Bool := symbolsScope ds
 
-/-- **C15_accepts.**  `parse` accepts every unit that is `valid` and declares its identifiers before use
-    (`refsOrdered`: `refsDeclared` with block-scope `extern` counted from its position on): none of the
+/-- with all four repairs the scope is every valid unit -/
+theorem inScope_repaired (ds : List Decl) : @InScope Rules.repaired ds = valid ds := by
+  have h1 : @Rules.flagsFollow Rules.repaired = true := rfl
+  have h2 : @Rules.ownedData Rules.repaired = true := rfl
+  have h3 : @Rules.compositeFromDecls Rules.repaired = true := rfl
+  have h4 : @Rules.externInherits Rules.repaired = true := rfl
+  simp [InScope, symbolsScope, h1, h2, h3, h4]
+
+/-- for the code without any repair it is the scope the theorem had before the rules were introduced -/
+example (ds : List Decl) : @InScope Rules.original ds =
+    (valid ds && !flagsFrozenDefRegion ds && !deadStaticLocalVisibleRegion ds && !compositeSizeRegion ds &&
+     !externInitAfterStaticRegion ds) := by
+  have h1 : @Rules.flagsFollow Rules.original = false := rfl
+  have h2 : @Rules.ownedData Rules.original = false := rfl
+  have h3 : @Rules.compositeFromDecls Rules.original = false := rfl
+  have h4 : @Rules.externInherits Rules.original = false := rfl
+  simp [InScope, symbolsScope, h1, h2, h3, h4]
+
+/-- **C15_accepts.**  `parse` accepts every valid unit: none of the
     diagnostics of the modelled code ("redefinition of f", "static declaration follows a non-static declaration",
     "undefined variable" / "implicit declaration of a function") fires, and the root loop terminates. -/
-theorem C15_accepts (ds : List Decl) (hv : valid ds = true) (ho : refsOrdered ds [] [] = true) :
-    ∃ gs, parseUnit ds = .ok gs := by
-  obtain ⟨st, hst⟩ := parse_ok hv ho
+theorem C15_accepts (ds : List Decl) (hv : valid ds = true) : ∃ gs, parseUnit ds = .ok gs := by
+  obtain ⟨st, hst⟩ := parse_ok hv
   obtain ⟨gs1, p⟩ := parsed_of_declAll hst
   exact ⟨_, p.parseUnit⟩
 
-/-- **C15_symbols (partial).**  For every declaration sequence in `InScope` (valid, outside the four
-    known-finding regions) that satisfies the side condition `symbolsSide`, and both `-fcommon` settings:
+/-- **C15_symbols (partial).**  For every rule set, every declaration sequence in `InScope` (valid, outside the regions of
+    the known findings that rule set still has) and both `-fcommon` settings:
     `parse` accepts the unit and the ELF symbol table of the output - every defined label with binding, section
     kind, size and alignment, every undefined reference - has exactly the entries of `Spec.symbols` (C11 6.2.2,
     6.9.2, 6.7.4, GCC -fcommon, psABI array alignment, read over all declarations at once).
@@ -426,26 +449,22 @@ theorem C15_accepts (ds : List Decl) (hv : valid ds = true) (ho : refsOrdered ds
     The proof is the simulation between the flag-mutating walk of `declAll` and the Spec: after any prefix the
     list is `<new data objects, explicit> ++ <old list with one function object updated>` (Lemmas/LinkageExact);
     function flags, `refs`, `uses` and the data objects are closed forms of the declarations (LinkageView,
-    LinkageUses, LinkageData); `mark_live` = the Spec's `closeRounds` closure (LinkageClosure, LinkageFnSym);
+    LinkageUses, LinkageData, LinkageFlags); `mark_live` = the Spec's `closeRounds` closure (LinkageClosure, LinkageFnSym);
     the tentative definition that stays has the composite type (LinkageScanTy, LinkageObjSym).
 
-    What is missing for the full statement:
-    * the four regions are genuine defects of chibicc (known findings);
-    * `symbolsSide` = `refsOrdered` (identifiers declared at the point of use; `valid`'s `refsDeclared` lets a
-      block-scope `extern` count for the whole body, chibicc and every C compiler reject the use before it) and
-      `tysAgree` (alignments positive; declarations that leave the array length open agree on the element size -
-      compatible types).  Both are facts about C that `Spec.valid` does not state; they are not restrictions on
-      chibicc. -/
-theorem C15_symbols_partial : ∀ (fcommon : Bool) (ds : List Decl), InScope ds = true → symbolsSide ds = true →
+    What is missing for the full statement: the regions of the rules that are off are genuine defects of chibicc (known
+    findings); nothing else - with all four rules on this IS the full statement (`C15_symbols_repaired`). -/
+theorem C15_symbols_partial : ∀ (fcommon : Bool) (ds : List Decl), InScope ds = true →
     ∃ gs, parseUnit ds = .ok gs ∧ (∀ e, e ∈ objectSymbols fcommon gs ↔ e ∈ symbols fcommon ds) := by
-  intro fcommon ds hin hside
-  simp only [InScope, Bool.and_eq_true, Bool.not_eq_true'] at hin
-  obtain ⟨⟨⟨⟨hv, hf⟩, hd⟩, hc⟩, he⟩ := hin
-  exact symbols_partial_lemma fcommon hv hf hd hc he hside
+  intro fcommon ds hin
+  exact symbols_partial_lemma fcommon hin
 
-/-- the scope the driver reports (`Spec.symbolsScope`, printed by `drv_c15 symbols` / `regions`) is the
-    hypothesis of the theorem -/
-example (ds : List Decl) : symbolsScope ds = (InScope ds && symbolsSide ds) := rfl
+/-- **C15_symbols for the repaired code (full statement, no region).**  With the four candidate repairs in the code
+    (`Rules.repaired`: extern inherits linkage, flags follow redeclarations, composite array type, data owned by their
+    function) the model's symbol table equals `Spec.symbols` for EVERY valid declaration sequence. -/
+theorem C15_symbols_repaired : @C15_symbols_Statement Rules.repaired := by
+  intro fcommon ds hv
+  exact @C15_symbols_partial Rules.repaired fcommon ds (by rw [inScope_repaired]; exact hv)
 
 /-- non-vacuity: a unit with redeclarations (`static int s(void); static int s(void){..}`), a static-inline cycle
     reached through a file-scope initializer, a dead static inline, a block-scope `extern` used after its
@@ -465,10 +484,16 @@ def mixedUnit : List Decl :=
     .func 0 1 true false false (some [.staticLocal false ⟨8, 8, false, false⟩ (some [.ref (.fn 5), .str 2])]),
     .func 4 4 false false false (some [.externObj 10 false ⟨4, 4, false, false⟩, .ref (.obj 10), .ref (.fn 0), .ref (.obj 7)]) ]
 
-example : InScope mixedUnit = true ∧ symbolsSide mixedUnit = true := by decide
+example : ∀ r : Rules, @InScope r mixedUnit = true := by all_rules
 
-example : InScope cyclicUnit = true ∧ symbolsSide cyclicUnit = true ∧
-    InScope tentativeUnit = true ∧ symbolsSide tentativeUnit = true := by decide
+example : ∀ r : Rules, @InScope r cyclicUnit = true ∧ @InScope r tentativeUnit = true := by all_rules
+
+/-- the units of the known findings are valid: inside the scope of `C15_symbols_repaired`, outside `InScope` of the
+    code without repairs -/
+example : valid [ .func 0 1 false false true (some []), .func 0 1 false true true none ] = true ∧
+    valid [ .obj 0 false false false ⟨4, 4, true, true⟩ none, .obj 0 false true false ⟨20, 4, true, false⟩ none ] = true ∧
+    valid [ .obj 0 true false false ⟨4, 4, false, false⟩ none, .obj 0 false true false ⟨4, 4, false, false⟩ (some []) ] = true := by
+  decide
 
 /-- ... and the table the theorem speaks about is not trivial -/
 example : (symbols true mixedUnit).map (fun e => (e.sym, e.binding, e.kind, e.size)) =
@@ -478,7 +503,8 @@ example : (symbols true mixedUnit).map (fun e => (e.sym, e.binding, e.kind, e.si
      (.named 8, .local, .tbss, some 4), (.named 10, .global, .undef, none)] := by decide
 
 /-- **C15_symbols with multiplicities (full statement).**  The symbol table of the output is a permutation of
-    `Spec.symbols`: the same entries, each exactly once.  False where `C15_symbols_Statement` is false (it implies it). -/
+    `Spec.symbols`: the same entries, each exactly once.  False where `C15_symbols_Statement` is false (it implies it);
+    proved for the repaired code: `C15_symbols_exact_repaired`. -/
 def C15_symbols_exact_Statement : Prop :=
   ∀ (fcommon : Bool) (ds : List Decl), valid ds = true →
     ∃ gs, parseUnit ds = .ok gs ∧ (objectSymbols fcommon gs).Perm (symbols fcommon ds)
@@ -489,17 +515,20 @@ def C15_symbols_exact_Statement : Prop :=
     `C15_symbols_partial` this uses: the labels `.L..k` are handed out once each; at most one declaration of an object
     has an initializer, so `scan_globals` leaves at most one definition per name (`C15_tentative`); function objects
     have distinct names; functions, objects and block-scope externs use different identifiers.
-    Missing for the full statement: the same regions and side condition as for `C15_symbols_partial`. -/
-theorem C15_symbols_exact_partial : ∀ (fcommon : Bool) (ds : List Decl), InScope ds = true → symbolsSide ds = true →
+    Missing for the full statement: the same regions as for `C15_symbols_partial`. -/
+theorem C15_symbols_exact_partial : ∀ (fcommon : Bool) (ds : List Decl), InScope ds = true →
     ∃ gs, parseUnit ds = .ok gs ∧ (objectSymbols fcommon gs).Perm (symbols fcommon ds) := by
-  intro fcommon ds hin hside
-  simp only [InScope, Bool.and_eq_true, Bool.not_eq_true'] at hin
-  obtain ⟨⟨⟨⟨hv, hf⟩, hd⟩, hc⟩, he⟩ := hin
-  exact symbols_perm_lemma fcommon hv hf hd hc he hside
+  intro fcommon ds hin
+  exact symbols_perm_lemma fcommon hin
+
+/-- **C15_symbols with multiplicities for the repaired code (full statement, no region).** -/
+theorem C15_symbols_exact_repaired : @C15_symbols_exact_Statement Rules.repaired := by
+  intro fcommon ds hv
+  exact @C15_symbols_exact_partial Rules.repaired fcommon ds (by rw [inScope_repaired]; exact hv)
 
 /-- non-vacuity: see the examples after `C15_symbols_partial` (same hypotheses); the two tables of `mixedUnit`
     have ten entries each -/
-example : holdsOn (parseUnit mixedUnit) (fun gs => (objectSymbols true gs).length == 10) = true ∧
-    (symbols true mixedUnit).length = 10 := by decide
+example : (∀ r : Rules, holdsOn (@parseUnit r mixedUnit) (fun gs => (objectSymbols true gs).length == 10) = true) ∧
+    (symbols true mixedUnit).length = 10 := ⟨by all_rules, by decide⟩
 
 end ChibiVerif.Props.C15
